@@ -23,6 +23,7 @@ import (
 	"github.com/prometheus/client_golang/prometheus"
 	dto "github.com/prometheus/client_model/go"
 	"github.com/saucelabs/forwarder"
+	"github.com/saucelabs/forwarder/bind"
 	"github.com/saucelabs/forwarder/header"
 	"github.com/saucelabs/forwarder/httplog"
 	"github.com/saucelabs/forwarder/internal/zzverif/simnet"
@@ -30,6 +31,7 @@ import (
 	"github.com/saucelabs/forwarder/log/martianlog"
 	"github.com/saucelabs/forwarder/pac"
 	"github.com/saucelabs/forwarder/ruleset"
+	"github.com/spf13/pflag"
 )
 
 const ProxyAddr = "proxy.test:3128"
@@ -62,6 +64,7 @@ type Options struct {
 	NoProm          bool
 	ConnectFunc     forwarder.ConnectFunc
 	Tweak           func(cfg *forwarder.HTTPProxyConfig, tcfg *forwarder.HTTPTransportConfig)
+	Flags           []string // command-line arguments of `forwarder run` applied to the configuration through the flags of package bind (HTTPProxyConfig, ProxyProtocol), as the command binds them
 	FastPathSockets bool                     // the proxy's sockets offer ReadFrom / WriteTo like *net.TCPConn (simnet.Net.FastPath)
 	TweakTransport  func(tr *http.Transport) // last word on the transport (e.g. the wiring of another package)
 	TransportCAPEM  []byte // root CA the proxy's transport trusts (data: URI is built from it)
@@ -276,6 +279,23 @@ func Start(o Options) (*World, error) {
 			}
 			return resH.ModifyResponse(res)
 		}))
+	}
+	if len(o.Flags) > 0 {
+		// options that reach the configuration the way an operator's do: through the command's own flag plumbing
+		fs := pflag.NewFlagSet("world", pflag.ContinueOnError)
+		bind.HTTPProxyConfig(fs, cfg, log.DefaultConfig())
+		pp := cfg.ProxyProtocolConfig != nil
+		ppc := cfg.ProxyProtocolConfig
+		if ppc == nil {
+			ppc = forwarder.DefaultProxyProtocolConfig()
+		}
+		bind.ProxyProtocol(fs, &pp, ppc)
+		if err := fs.Parse(o.Flags); err != nil {
+			return nil, fmt.Errorf("flags %q: %w", o.Flags, err)
+		}
+		if pp {
+			cfg.ProxyProtocolConfig = ppc // (as command/run does)
+		}
 	}
 	if o.Tweak != nil {
 		o.Tweak(cfg, tcfg)
